@@ -1177,12 +1177,16 @@ func clauseDetachWithChildren(c *Ctx, id string) {
 	c.clause(id, "T2", "store: a layer directory node is removed from its parent only after its own children were removed (persistent inodes would otherwise survive and answer lookups for a released layer)", 1)
 	n := 0
 	for _, f := range c.pkgFuncs("store") {
-		for _, rm := range callsIn(f, func(id string, _ ssa.CallInstruction) bool { return strings.HasSuffix(id, "go-fuse/v2/fs.(*Inode).RmChild") }) {
+		for _, rm := range callsIn(f, func(id string, _ ssa.CallInstruction) bool {
+			return strings.HasSuffix(id, "go-fuse/v2/fs.(*Inode).RmChild")
+		}) {
 			n++
 			// a RmAllChildren call on the result of GetChild(same name) dominates it
 			good := false
 			names := varargs(rm.Common().Args[len(rm.Common().Args)-1])
-			for _, all := range callsIn(f, func(id string, _ ssa.CallInstruction) bool { return strings.HasSuffix(id, "go-fuse/v2/fs.(*Inode).RmAllChildren") }) {
+			for _, all := range callsIn(f, func(id string, _ ssa.CallInstruction) bool {
+				return strings.HasSuffix(id, "go-fuse/v2/fs.(*Inode).RmAllChildren")
+			}) {
 				gc, ok := stripConv(all.Common().Args[0]).(*ssa.Call)
 				if !ok || !strings.HasSuffix(calleeID(gc), "go-fuse/v2/fs.(*Inode).GetChild") {
 					continue
@@ -1429,7 +1433,9 @@ func clauseLookupMemoryNodeAttrs(c *Ctx, id string) {
 	if f == nil {
 		return
 	}
-	gc := callsIn(f, func(id string, _ ssa.CallInstruction) bool { return strings.HasSuffix(id, "go-fuse/v2/fs.(*Inode).GetChild") })
+	gc := callsIn(f, func(id string, _ ssa.CallInstruction) bool {
+		return strings.HasSuffix(id, "go-fuse/v2/fs.(*Inode).GetChild")
+	})
 	if len(gc) == 0 {
 		c.unk(c.fnKey(f)+":memory-node", f.Pos(), "lookup on live child inodes not found")
 		return
@@ -1441,7 +1447,9 @@ func clauseLookupMemoryNodeAttrs(c *Ctx, id string) {
 			continue
 		}
 		// only the calls in the memory-node branch: they precede the metadata GetChild calls
-		meta := callsIn(f, func(_ string, x ssa.CallInstruction) bool { return x.Common().IsInvoke() && x.Common().Method.Name() == "GetChild" })
+		meta := callsIn(f, func(_ string, x ssa.CallInstruction) bool {
+			return x.Common().IsInvoke() && x.Common().Method.Name() == "GetChild"
+		})
 		early := true
 		for _, m := range meta {
 			if dominatesInstr(m, ci) {
@@ -1519,7 +1527,7 @@ func reflectTagJSON(tag string) string {
 
 // clauseOwnerNameDedup: the writer omits a user/group name only when it equals the name last written for that id.
 func clauseOwnerNameDedup(c *Ctx, id string) {
-	c.clause(id, "T2", "nameIfChanged remembers the name it returns: every return of a non-empty name passes the map update for that id (readers fill an omitted name with the last one they saw)", 1)
+	c.clause(id, "T2", "nameIfChanged remembers the name it returns: every return of a non-empty name passes the map update for that id (readers fill an omitted name with the last one they saw); a name is omitted only when it equals the remembered one", 2)
 	f := c.mustFn("estargz", "(*Writer).nameIfChanged")
 	if f == nil {
 		return
@@ -1544,6 +1552,51 @@ func clauseOwnerNameDedup(c *Ctx, id string) {
 			}
 		}
 	}
+	// converse: a name is omitted only when it is empty or equals the value read from the map for that id
+	isName := func(v ssa.Value) bool {
+		p, ok := stripConv(v).(*ssa.Parameter)
+		return ok && p.Name() == "name"
+	}
+	fromMap := func(v ssa.Value) bool {
+		v = stripConv(v)
+		if e, ok := v.(*ssa.Extract); ok {
+			v = e.Tuple
+		}
+		_, ok := v.(*ssa.Lookup)
+		return ok
+	}
+	eq := condEdges(f, func(cond ssa.Value) int {
+		b, ok := cond.(*ssa.BinOp)
+		if !ok || (b.Op != token.EQL && b.Op != token.NEQ) {
+			return 0
+		}
+		other := b.Y
+		if !isName(b.X) {
+			if !isName(b.Y) {
+				return 0
+			}
+			other = b.X
+		}
+		if s, isC := constString(other); !(isC && s == "") && !fromMap(other) {
+			return 0
+		}
+		if b.Op == token.EQL {
+			return 1
+		}
+		return -1
+	})
+	omitOK, nOmit := true, 0
+	for _, r := range realReturns(f) {
+		for _, v := range retVals(r, 0) {
+			if s, ok := constString(v); ok && s == "" {
+				nOmit++
+				if o, _ := mustPass(f, r, newCuts().addEdges(eq)); !o || len(eq) == 0 {
+					omitOK = false
+				}
+			}
+		}
+	}
+	c.verdict(c.fnKey(f)+":omits-only-equal-name", f.Pos(), omitOK && nOmit > 0, "a name is omitted only when empty or equal to the name recorded for the id", "a name is omitted although it differs from the name last written for that id (e.g. whenever any name was recorded): after alice, bob for one uid readers report alice for both while the tar header says bob")
 	c.verdict(c.fnKey(f)+":remembers-returned-name", f.Pos(), good && n > 0, "a returned name is recorded as the last one written", "a name can be written to the TOC without being remembered as the last one for its id: after A, B, A the second A is omitted and readers report B while the tar header says A")
 }
 
@@ -1695,8 +1748,12 @@ func clauseMediaTypeBySharedPredicate(c *Ctx, id string) {
 					}
 				}
 			})
-			if isConstSet {
-				continue
+			isLayerConv := false
+			if sg := f.Signature; sg.Params().Len() == 3 && sg.Results().Len() == 2 && strings.HasSuffix(typeQName(sg.Params().At(2).Type()), "v1.Descriptor") && strings.HasSuffix(typeQName(sg.Results().At(0).Type()), "v1.Descriptor") {
+				isLayerConv = true // shape of converter.ConvertFunc
+			}
+			if isConstSet && (pk == "nativeconverter/zstdchunked" || !isLayerConv) {
+				continue // zstd output (its table is C19.d), or a manifest/config descriptor built with a fixed type
 			}
 			n++
 			uses := false
@@ -1736,7 +1793,9 @@ func clauseExistingDirReused(c *Ctx, id string) {
 	}
 	n := 0
 	for _, lit := range withAnon(f) {
-		creates := callsIn(lit, func(id string, _ ssa.CallInstruction) bool { return strings.HasSuffix(id, "bbolt.(*Bucket).CreateBucket") })
+		creates := callsIn(lit, func(id string, _ ssa.CallInstruction) bool {
+			return strings.HasSuffix(id, "bbolt.(*Bucket).CreateBucket")
+		})
 		if len(creates) == 0 {
 			continue
 		}
@@ -1777,7 +1836,9 @@ func clauseWhiteoutInodeFromMarker(c *Ctx, id string) {
 		return
 	}
 	var prefixed ssa.CallInstruction
-	for _, g := range callsIn(f, func(_ string, ci ssa.CallInstruction) bool { return ci.Common().IsInvoke() && ci.Common().Method.Name() == "GetChild" }) {
+	for _, g := range callsIn(f, func(_ string, ci ssa.CallInstruction) bool {
+		return ci.Common().IsInvoke() && ci.Common().Method.Name() == "GetChild"
+	}) {
 		if !isParamish(g.Common().Args[1]) {
 			prefixed = g
 		}
@@ -1890,7 +1951,9 @@ func clauseUpdateKeepsRemoteMark(c *Ctx, id string) {
 		return
 	}
 	rl := c.constVal(sp, "remoteLabel")
-	ups := callsIn(f, func(id string, _ ssa.CallInstruction) bool { return strings.HasSuffix(id, "snapshots/storage.UpdateInfo") })
+	ups := callsIn(f, func(id string, _ ssa.CallInstruction) bool {
+		return strings.HasSuffix(id, "snapshots/storage.UpdateInfo")
+	})
 	gets := callsIn(f, func(id string, _ ssa.CallInstruction) bool { return strings.HasSuffix(id, "snapshots/storage.GetInfo") })
 	if len(ups) == 0 {
 		c.unk(c.fnKey(f)+":update", f.Pos(), "Update no longer goes through storage.UpdateInfo")
@@ -1977,7 +2040,9 @@ func clauseKnownMountIsLive(c *Ctx, id string) {
 			found = append(found, boolEdges(f, v, true)...)
 		}
 	}
-	mounts := callsIn(f, func(_ string, ci ssa.CallInstruction) bool { return ci.Common().IsInvoke() && ci.Common().Method.Name() == "Mount" })
+	mounts := callsIn(f, func(_ string, ci ssa.CallInstruction) bool {
+		return ci.Common().IsInvoke() && ci.Common().Method.Name() == "Mount"
+	})
 	good := len(found) > 0
 	detail := ""
 	for _, e := range found {
@@ -2611,7 +2676,9 @@ func clauseFlightJoinedBeforeReturn(c *Ctx, id string) {
 			}
 			n++
 			ch := ci.Value()
-			isCh := func(v ssa.Value) bool { return ch != nil && (stripConv(v) == ssa.Value(ch) || flowsFrom(stripConv(v), ch, 0)) }
+			isCh := func(v ssa.Value) bool {
+				return ch != nil && (stripConv(v) == ssa.Value(ch) || flowsFrom(stripConv(v), ch, 0))
+			}
 			ri, re := recvEvents(f, isCh)
 			hit, path := reach(f, ci, isReturn, newCuts().addInstr(ri...).addEdges(re))
 			c.verdict(c.fnKey(f)+":flight-awaited", ci.Pos(), hit == nil, "every return after DoChan has received the flight's result", "the caller can return (e.g. on ctx.Done()) while the flight it started or joined is still running: the detached fetch keeps writing into the caller's buffer, which a retried background-task body already reuses: "+c.pathStr(f, path))
@@ -2767,6 +2834,26 @@ func clauseStorePoolPremises(c *Ctx, id string) {
 				good = false
 			}
 		}
+		// the image is pinned in the pool once per use, as release unpins it once per release
+		pins := callsIn(f, idIs("store.(*refPool).use"))
+		pinned := len(pins) > 0
+		for _, r := range realReturns(f) {
+			if o, _ := mustPass(f, r, newCuts().addCalls(pins)); !o {
+				pinned = false
+			}
+		}
+		c.verdict(c.fnKey(f)+":pins-every-use", f.Pos(), pinned, "every return of use has pinned the image in the pool", "use can return without refPool.use although release always calls refPool.release: the pool's count reaches zero while layers of the image are still in use, and its manifest/config directory becomes evictable")
+		if rf := c.mustFn("store", "(*LayerManager).release"); rf != nil {
+			unpins := callsIn(rf, idIs("store.(*refPool).release"))
+			// symmetric: release unpins on every path that decrements (here: every path at all, or none)
+			all := len(unpins) > 0
+			for _, r := range realReturns(rf) {
+				if o, _ := mustPass(rf, r, newCuts().addCalls(unpins)); !o {
+					all = false
+				}
+			}
+			c.verdict(c.fnKey(rf)+":unpins-every-release", rf.Pos(), all, "every return of release has unpinned the image", "release can return without refPool.release although use always pins: the image stays pinned forever")
+		}
 		c.verdict(c.fnKey(f)+":counts-every-use", f.Pos(), good, "every return of use has updated the counter", "use can return without counting (e.g. for a layer that is not resolved at that moment): a later release by another client drops the count to zero while this client still uses the layer")
 	}
 }
@@ -2825,5 +2912,399 @@ func clauseCompressorPerCall(c *Ctx, id string) {
 	}
 	if n == 0 {
 		c.bad(xp+":constructors", token.NoPos, "no constructor of the external-TOC compressor found")
+	}
+}
+
+// clauseCheckAnswersFromBackend: filesystem.check (the backend side of the snapshotter's availability
+// check) reports "available" (nil) only on the success edge of Layer.Check or Layer.Refresh; every other
+// return carries an error that is non-nil by construction.
+func clauseCheckAnswersFromBackend(c *Ctx, id string) {
+	c.clause(id, "T1+T9", "filesystem.check answers nil only on the success edge of Layer.Check or Layer.Refresh; every other return value is an error that is non-nil by construction (a constructor, or an error result on its non-nil edge)", 3)
+	f := c.mustFn("fs", "(*filesystem).check")
+	if f == nil {
+		return
+	}
+	probes := callsIn(f, func(id string, ci ssa.CallInstruction) bool {
+		return id == "fs/layer.(Layer).Check" || id == "fs/layer.(Layer).Refresh"
+	})
+	var succ []edge
+	for _, p := range probes {
+		succ = append(succ, successEdges(f, p)...)
+	}
+	if len(probes) < 2 {
+		c.unk(c.fnKey(f)+":probes", f.Pos(), "Layer.Check / Layer.Refresh calls not found in filesystem.check")
+		return
+	}
+	seenPhi := map[*ssa.Phi]bool{}
+	var nonNil func(v ssa.Value, r *ssa.Return, d int) bool
+	nonNil = func(v ssa.Value, r *ssa.Return, d int) bool {
+		v = stripConv(v)
+		if d > 6 {
+			return false
+		}
+		switch x := v.(type) {
+		case *ssa.Call:
+			switch calleeID(x) {
+			case "fmt.Errorf", "errors.New":
+				return true
+			}
+			return false
+		case *ssa.MakeInterface:
+			return nonNil(x.X, r, d+1) || !isNilConst(x.X)
+		case *ssa.Phi:
+			if seenPhi[x] {
+				return true // loop-carried: decided by the other edges
+			}
+			seenPhi[x] = true
+			for _, e := range x.Edges {
+				if !nonNil(e, r, d+1) {
+					return false
+				}
+			}
+			return true
+		case *ssa.Extract:
+			// an error result: the return must lie behind its non-nil edge
+			ne := nonNilEdges(f, x)
+			if len(ne) == 0 {
+				return false
+			}
+			okp, _ := mustPass(f, r, newCuts().addEdges(ne))
+			return okp
+		}
+		// a single error result used directly
+		if call, ok := v.(*ssa.Call); ok && isErrorType(call.Type()) {
+			ne := nonNilEdges(f, call)
+			okp, _ := mustPass(f, r, newCuts().addEdges(ne))
+			return okp && len(ne) > 0
+		}
+		return false
+	}
+	n := 0
+	for _, r := range realReturns(f) {
+		for _, v := range retVals(r, 0) {
+			n++
+			key := c.fnKey(f) + ":return"
+			if isNilConst(v) {
+				okp, path := mustPass(f, r, newCuts().addEdges(succ))
+				c.verdict(key, r.Pos(), okp, "nil only after Check or Refresh succeeded", "filesystem.check can answer nil without a successful Check or Refresh: "+c.pathStr(f, path))
+				continue
+			}
+			seenPhi = map[*ssa.Phi]bool{}
+			good := nonNil(v, r, 0)
+			if !good {
+				// error result of a single-result call tested on its non-nil edge
+				if call, ok := stripConv(v).(*ssa.Call); ok {
+					ne := nonNilEdges(f, call)
+					if okp, _ := mustPass(f, r, newCuts().addEdges(ne)); okp && len(ne) > 0 {
+						good = true
+					}
+				}
+			}
+			c.verdict(key, r.Pos(), good, "returns an error that is non-nil by construction", "filesystem.check returns a value that can be nil although neither Check nor Refresh succeeded (e.g. an empty errors.Join, or no source to refresh from): an unreachable layer is reported available and the snapshotter hands out its mounts")
+		}
+	}
+	if n == 0 {
+		c.unk(c.fnKey(f)+":return", f.Pos(), "no return found")
+	}
+}
+
+// clauseInodeNumbersFreedOnForget: store inode numbers go back to the id map only from OnForget methods,
+// i.e. after the kernel dropped its references; go-fuse still resolves {mode, ino} of a removed node to the
+// stale node until then.
+func clauseInodeNumbersFreedOnForget(c *Ctx, id string) {
+	c.clause(id, "T3", "store: an inode number is returned to the id map only by the OnForget method of the node that owns it (never at Rmdir/release time, while the kernel may still hold the stale node under that number)", 4)
+	n := 0
+	for _, s := range c.callSitesOf(idIs("store.(*idMap).remove"), c.liveFuncs()) {
+		n++
+		f := s.caller
+		isForget := f.Name() == "OnForget" && f.Signature.Recv() != nil
+		ownIno := false
+		if isForget && len(f.Params) > 0 {
+			// argument derives from the receiver's own attribute
+			ownIno = flowsFromParam(s.instr.(ssa.CallInstruction).Common().Args[1], f.Params[0])
+		}
+		c.verdict(c.fnKey(f)+":idMap.remove", s.instr.Pos(), isForget && ownIno, "number of the forgotten node itself, freed in OnForget", "an inode number is recycled outside OnForget (or for another node): a node looked up next can be confused with the stale node the kernel still references under that number, and a released layer's directory answers for a different digest")
+	}
+	if n == 0 {
+		c.unk("store:idMap.remove", token.NoPos, "no caller of idMap.remove found")
+	}
+}
+
+// flowsFromParam: v is computed from parameter p through field selections, loads and conversions only.
+func flowsFromParam(v ssa.Value, p *ssa.Parameter) bool {
+	for d := 0; d < 12; d++ {
+		v = stripConv(v)
+		switch x := v.(type) {
+		case *ssa.Parameter:
+			return x == p
+		case *ssa.UnOp:
+			v = x.X
+		case *ssa.FieldAddr:
+			v = x.X
+		case *ssa.Field:
+			v = x.X
+		case *ssa.Convert:
+			v = x.X
+		default:
+			return false
+		}
+	}
+	return false
+}
+
+// clauseMemoisedResolveDetached: LayerManager.resolveLayer memoises its outcome (also a failure) per
+// image and layer; the context it runs under must therefore not be the cancellable context of the client
+// request that happened to trigger it.
+func clauseMemoisedResolveDetached(c *Ctx, id string) {
+	c.clause(id, "T9", "store: resolveLayer (whose result, error included, is memoised for all later lookups) runs under a context that is detached from the triggering request (context.Background/TODO/WithoutCancel, possibly decorated with values), never under the caller's cancellable context", 1)
+	var detached func(v ssa.Value, d int) bool
+	detached = func(v ssa.Value, d int) bool {
+		if d > 6 {
+			return false
+		}
+		for _, rv := range reachingVals(v) {
+			rv = stripConv(rv)
+			call, ok := rv.(*ssa.Call)
+			if !ok {
+				// captured variable of the enclosing function: look at the binding
+				if fv, isFV := rv.(*ssa.FreeVar); isFV {
+					if b := bindingOf(fv); b != nil && detached(b, d+1) {
+						continue
+					}
+				}
+				return false
+			}
+			switch cid := calleeID(call); {
+			case cid == "context.Background" || cid == "context.TODO" || cid == "context.WithoutCancel":
+			case cid == "context.WithValue" || strings.HasSuffix(cid, "log.WithLogger"):
+				if !detached(call.Call.Args[0], d+1) {
+					return false
+				}
+			default:
+				return false
+			}
+		}
+		return true
+	}
+	n := 0
+	for _, s := range c.callSitesOf(idIs("store.(*LayerManager).resolveLayer"), c.liveFuncs()) {
+		n++
+		args := s.instr.(ssa.CallInstruction).Common().Args
+		c.verdict(c.fnKey(s.caller)+":resolve-context", s.instr.Pos(), len(args) > 1 && detached(args[1], 0), "resolveLayer runs under a detached context", "resolveLayer runs under the context of the client request: when that client gives up, the cancellation error is memoised and every later lookup of the layer fails although nothing is wrong with it")
+	}
+	if n == 0 {
+		c.unk("store:resolveLayer-call", token.NoPos, "no call of resolveLayer found")
+	}
+}
+
+// bindingOf: the value bound to free variable fv where its closure is created (cells are looked through).
+func bindingOf(fv *ssa.FreeVar) ssa.Value {
+	fn := fv.Parent()
+	par := fn.Parent()
+	if par == nil {
+		return nil
+	}
+	idx := -1
+	for i, x := range fn.FreeVars {
+		if x == fv {
+			idx = i
+		}
+	}
+	var out ssa.Value
+	eachInstr(par, func(i ssa.Instruction) {
+		if mc, ok := i.(*ssa.MakeClosure); ok && mc.Fn == fn && idx >= 0 && idx < len(mc.Bindings) {
+			out = mc.Bindings[idx]
+		}
+	})
+	return out
+}
+
+// clauseReclaimReallyRemoves: the directory-reclaiming function of package snapshot (the one that calls
+// os.RemoveAll) reports success only on the success edge of RemoveAll of its directory argument; and the
+// directory preparation of restoreRemoteSnapshot creates both snapshots/<id> and its fs mountpoint on every
+// successful path.
+func clauseReclaimReallyRemoves(c *Ctx, id string) {
+	c.clause(id, "T1+T2", "snapshot: the reclaiming function returns nil only after os.RemoveAll of its directory succeeded (an orphan without an fs sub-directory is reclaimed too); restore's directory preparation passes Mkdir of snapshots/<id> and of its fs mountpoint on every successful path", 2)
+	n := 0
+	for _, f := range c.pkgFuncs("snapshot") {
+		rms := callsIn(f, idIs("os.RemoveAll"))
+		if len(rms) == 0 {
+			continue
+		}
+		var succ []edge
+		for _, r := range rms {
+			if _, isParam := stripConv(r.Common().Args[0]).(*ssa.Parameter); isParam {
+				succ = append(succ, successEdges(f, r)...)
+			}
+		}
+		for _, r := range realReturns(f) {
+			nres := len(r.Results)
+			if nres == 0 {
+				continue
+			}
+			for _, v := range retVals(r, nres-1) {
+				if !isNilConst(v) {
+					continue
+				}
+				n++
+				okp, path := mustPass(f, r, newCuts().addEdges(succ))
+				c.verdict(c.fnKey(f)+":nil-after-RemoveAll", r.Pos(), okp && len(succ) > 0, "success only after the directory was removed", "the reclaiming function can report success without having removed the directory (e.g. when it has no fs sub-directory): leftovers of a crash survive every cleanup pass: "+c.pathStr(f, path))
+			}
+		}
+	}
+	if f := c.mustFn("snapshot", "(*snapshotter).restoreRemoteSnapshot"); f != nil {
+		for _, lit := range withAnon(f) {
+			mk := callsIn(lit, idIs("os.Mkdir", "os.MkdirAll"))
+			if len(mk) < 2 {
+				continue
+			}
+			for _, r := range realReturns(lit) {
+				nres := len(r.Results)
+				if nres == 0 {
+					continue
+				}
+				for _, v := range retVals(r, nres-1) {
+					if !isNilConst(v) {
+						continue
+					}
+					n++
+					all := true
+					for _, m := range mk {
+						if okp, _ := mustPass(lit, r, newCuts().addInstr(m)); !okp {
+							all = false
+						}
+					}
+					c.verdict(c.fnKey(lit)+":both-directories-prepared", r.Pos(), all, "every successful path created (or found) both directories", "restore can report the snapshot directory as prepared without passing the Mkdir of its fs mountpoint: a crash image that has snapshots/<id> but no fs makes the re-mount fail")
+				}
+			}
+		}
+	}
+	if n < 2 {
+		c.unk("snapshot:reclaim/restore-sites", token.NoPos, "reclaiming function or restore's directory preparation not found")
+	}
+}
+
+// clauseLayerRootIsMetadataRoot: "is this the layer's root directory" (which gates the hiding of the
+// landmarks and the state directory) is decided by comparing the node's id with the metadata reader's root id,
+// not by the node's position in the FUSE tree (the store attaches layers below its own tree).
+func clauseLayerRootIsMetadataRoot(c *Ctx, id string) {
+	c.clause(id, "T9", "fs/layer: isRootNode compares the node's own id with the root id obtained from the metadata reader (RootID()); it does not ask go-fuse whether the inode is the root of the mounted tree", 2)
+	f := c.mustFn("fs/layer", "(*node).isRootNode")
+	if f == nil {
+		return
+	}
+	good, n := true, 0
+	for _, r := range realReturns(f) {
+		for _, v := range retVals(r, 0) {
+			n++
+			b, ok := stripConv(v).(*ssa.BinOp)
+			if !ok || b.Op != token.EQL {
+				good = false
+				continue
+			}
+			_, okX := loadOfField(b.X)
+			_, okY := loadOfField(b.Y)
+			names := map[string]bool{}
+			for _, s := range []ssa.Value{b.X, b.Y} {
+				if fa, ok := loadOfField(s); ok {
+					names[fieldName(fa)] = true
+				}
+			}
+			if !okX || !okY || !names["id"] || !names["rootID"] {
+				good = false
+			}
+		}
+	}
+	c.verdict(c.fnKey(f)+":by-metadata-root-id", f.Pos(), good && n > 0, "n.id == n.fs.rootID", "the layer root is not recognised by the metadata root id: where the layer is attached below another FUSE tree (stargz-store) the landmarks become visible and the state directory disappears")
+	// rootID is written only from Reader.RootID()
+	w := 0
+	for _, a := range c.fieldAccesses("fs/layer.fs", "rootID", c.liveFuncs()) {
+		if !a.write {
+			continue
+		}
+		w++
+		st := a.instr.(*ssa.Store)
+		fromReader := false
+		for _, rv := range reachingVals(st.Val) {
+			if call, ok := stripConv(rv).(*ssa.Call); ok && strings.HasSuffix(calleeID(call), ".RootID") {
+				fromReader = true
+			}
+		}
+		c.verdict(c.fnKey(a.fn)+":rootID-source", st.Pos(), fromReader, "fs.rootID is the metadata reader's RootID()", "fs.rootID is not taken from the metadata reader")
+	}
+	if w == 0 {
+		c.unk("fs/layer.fs.rootID", token.NoPos, "no writer of fs.rootID found")
+	}
+}
+
+// clauseDigestParsedBeforeUse: go-digest panics in Verifier()/Algorithm().Hash() for a digest string with
+// an unknown algorithm or without a colon. Digest strings from the TOC are untrusted: a digest whose methods
+// are called must come from digest.Parse (or another validating/constructing function), never from a bare
+// string conversion.
+func clauseDigestParsedBeforeUse(c *Ctx, id string) {
+	c.clause(id, "T9", "a digest.Digest whose Verifier()/Algorithm()/Hex()/Encoded() is called in the untrusted-input packages never comes from a bare conversion of a string (digest.Digest(s)) without Validate: go-digest panics on unknown algorithms and malformed strings", 1)
+	pk := map[string]bool{"fs/reader": true, "fs/layer": true, "fs/remote": true, "estargz": true, "metadata/memory": true, "cmd/containerd-stargz-grpc/db": true, "estargz/zstdchunked": true, "estargz/externaltoc": true, "fs": true, "store": true}
+	n := 0
+	for _, f := range c.liveFuncs() {
+		if f.Pkg == nil || !pk[rel(f.Pkg.Pkg.Path())] {
+			continue
+		}
+		eachInstr(f, func(i ssa.Instruction) {
+			ci, ok := asCall(i)
+			if !ok {
+				return
+			}
+			cid := calleeID(ci)
+			if !strings.HasSuffix(cid, "go-digest.(Digest).Verifier") && !strings.HasSuffix(cid, "go-digest.(Digest).Algorithm") && !strings.HasSuffix(cid, "go-digest.(Digest).Hex") && !strings.HasSuffix(cid, "go-digest.(Digest).Encoded") {
+				return
+			}
+			n++
+			recv := ci.Common().Args[0]
+			bare := false
+			for _, rv := range reachingVals(recv) {
+				switch x := stripConvKeepType(rv).(type) {
+				case *ssa.ChangeType:
+					if b, ok := x.X.Type().Underlying().(*types.Basic); ok && b.Kind() == types.String {
+						if _, isConst := x.X.(*ssa.Const); !isConst {
+							bare = true
+						}
+					}
+				case *ssa.Convert:
+					if b, ok := x.X.Type().Underlying().(*types.Basic); ok && b.Kind() == types.String {
+						if _, isConst := x.X.(*ssa.Const); !isConst {
+							bare = true
+						}
+					}
+				}
+			}
+			if bare {
+				// accepted when Validate() of the same value succeeded before
+				vals := callsIn(f, func(id string, v ssa.CallInstruction) bool {
+					return strings.HasSuffix(id, "go-digest.(Digest).Validate") && sameValue(v.Common().Args[0], recv)
+				})
+				var succ []edge
+				for _, v := range vals {
+					succ = append(succ, successEdges(f, v)...)
+				}
+				if okp, _ := mustPass(f, i, newCuts().addEdges(succ)); okp && len(succ) > 0 {
+					bare = false
+				}
+			}
+			c.verdict(c.fnKey(f)+":digest-validated:"+cid[strings.LastIndex(cid, ".")+1:], i.Pos(), !bare, "the digest comes from a parsing/constructing function or a typed value", "a string from untrusted metadata is converted to digest.Digest and used without Parse/Validate: an unknown algorithm (md5:…) or a string without colon makes go-digest panic inside a FUSE read or a prefetch goroutine")
+		})
+	}
+	if n == 0 {
+		c.unk("digest-method-calls", token.NoPos, "no digest method call found in the untrusted-input packages")
+	}
+}
+
+func stripConvKeepType(v ssa.Value) ssa.Value {
+	for {
+		switch x := v.(type) {
+		case *ssa.MakeInterface:
+			v = x.X
+		default:
+			return v
+		}
 	}
 }
